@@ -252,8 +252,21 @@ class ResourcePeriodicallyUnavailable(ResourceConstraint):
             for worker in workers:
                 for start_task_i, end_task_i in worker.get_busy_intervals():
                     resource_assigned = True
-                    duration = end_task_i - start_task_i
-                    folded_start_task_i = (start_task_i - self.offset) % self.period
+                    # only the part of the busy interval that lies in the activity range
+                    # [start, end) of the pattern is concerned
+                    active_start_task_i = z3.If(
+                        start_task_i >= self.start, start_task_i, self.start
+                    )
+                    if self.end is not None:
+                        active_end_task_i = z3.If(
+                            end_task_i <= self.end, end_task_i, self.end
+                        )
+                    else:
+                        active_end_task_i = end_task_i
+                    duration = active_end_task_i - active_start_task_i
+                    folded_start_task_i = (
+                        active_start_task_i - self.offset
+                    ) % self.period
                     conds = [
                         z3.Or(
                             # the folded task ends before the interval of its own period...
